@@ -174,8 +174,15 @@ EXPORT_SYMBOL(invoke_safe_str_constraint_handler);
 int handle_str_bos_overflow(const char *restrict msg, char *restrict dest,
                             const rsize_t dmax) {
     /* clear the min of strlen and dmax(=destbos) */
-    size_t len = strnlen_s(dest, dmax);
+    size_t len;
     errno_t err = EOVERFLOW;
+    /* an object of no elements (dest points at the end of an array) has
+       nothing to clear, and strnlen_s would report the zero size itself */
+    if (unlikely(dmax == 0)) {
+        invoke_safe_str_constraint_handler(msg, (void *)dest, err);
+        return RCNEGATE(err);
+    }
+    len = strnlen_s(dest, dmax);
     if (unlikely(len > RSIZE_MAX_STR)) {
         len = 1;
         err = ESLEMAX;
